@@ -641,7 +641,7 @@ def gen_cases(rng, tier):
         n_v2rt, n_v1rt, n_v1yaml = 500, 120, 1200
     else:
         n_v2src, n_v2ast, n_v1src, n_v1items, depth = 5000, 45000, 10000, 60000, 6
-        n_v2rt, n_v1rt, n_v1yaml = 4000, 800, 15000
+        n_v2rt, n_v1rt, n_v1yaml = 4000, 800, 9000
     for _ in range(n_v2rt):
         cases.append(gen_v2_rt(rng, tier != "quick"))
     for _ in range(n_v1rt):
